@@ -1134,16 +1134,24 @@ impl Translator {
 
                 let (_, captures, _locals) =
                     self.calculate_args_captures_locals(&overload_ty, args, body, mono);
+                // the types that instantiate the body are taken from every captured variable,
+                // also from one whose generic type is void here (it has no slot to capture)
+                let (_, typed_captures, _) = self.calculate_args_captures_locals(
+                    &overload_ty,
+                    args,
+                    body,
+                    &MonomorphEnv::empty(),
+                );
 
                 let desc = FuncDesc {
                     kind: FuncKind::AnonymousFunc {
                         lambda: expr.clone(),
-                        capture_types: captures
+                        capture_types: typed_captures
                             .iter()
                             .cloned()
                             .map(|capture| self.statics.solution_of_node(capture).unwrap())
                             .collect(),
-                        capture_types_concrete: captures
+                        capture_types_concrete: typed_captures
                             .iter()
                             .cloned()
                             .map(|capture| self.get_ty(mono, capture).unwrap())
@@ -1178,16 +1186,22 @@ impl Translator {
 
                 let (_, captures, _locals) =
                     self.calculate_args_captures_locals(&overload_ty, &[], body, mono);
+                let (_, typed_captures, _) = self.calculate_args_captures_locals(
+                    &overload_ty,
+                    &[],
+                    body,
+                    &MonomorphEnv::empty(),
+                );
 
                 let desc = FuncDesc {
                     kind: FuncKind::TaskBlock {
                         task_block: expr.clone(),
-                        capture_types: captures
+                        capture_types: typed_captures
                             .iter()
                             .cloned()
                             .map(|capture| self.statics.solution_of_node(capture).unwrap())
                             .collect(),
-                        capture_types_concrete: captures
+                        capture_types_concrete: typed_captures
                             .iter()
                             .cloned()
                             .map(|capture| self.get_ty(mono, capture).unwrap())
